@@ -119,3 +119,26 @@ func verifH_c06_sign() {
 	}
 	verifReach("end")
 }
+
+// encodeSignature/parseSignature round trip for every (r, s) with up to three leading zero bytes each:
+// the library's own parser accepts what the encoder produces and returns the same magnitudes.
+func verifH_c06_encode() {
+	r, s := verifBytes("r", 32), verifBytes("s", 32)
+	verifAssume(verifAny(r[0] != 0, r[1] != 0, r[2] != 0, r[3] != 0))
+	verifAssume(verifAny(s[0] != 0, s[1] != 0, s[2] != 0, s[3] != 0))
+	sig, err := encodeSignature(r, s)
+	verifAssert(err == nil, "encoding a non-zero pair succeeds")
+	pr, ps, perr := parseSignature(sig)
+	verifAssert(perr == nil, "the parser accepts the encoder's output (minimal DER)")
+	if perr == nil {
+		strip := func(b []byte) []byte {
+			for len(b) > 1 && b[0] == 0 {
+				b = b[1:]
+			}
+			return b
+		}
+		wr, ws := strip(r), strip(s)
+		verifAssert(len(pr) == len(wr) && len(ps) == len(ws) && verifEqBytes(pr, wr) && verifEqBytes(ps, ws), "and returns the same integers")
+	}
+	verifReach("end")
+}
